@@ -20,7 +20,7 @@ def run(ctx):
         "partition counts < 2^31 (Hash/ReferenceHash) resp. < 2^32 (CRC32/Murmur2), as len() of a real slice",
         "RoundRobin: 1 <= ChunkSize < 2^32 after normalisation; uint32 counter wrap is known finding D10",
         "LeastBytes: fixed duplicate-free partition list; byte totals < 2^64",
-        "each Balance body is atomic (mutex) — extracted fact not yet regenerated; sampled by rrconc/lbconc cases",
+        "each Balance body is atomic: lock bracket extracted by go/ast on every run (theorem balance_bodies_atomic); mutex semantics trusted; sampled by rrconc/lbconc cases",
     ]
     ok, log = ctx.extract("balancer", ["lean/KafkaVerif/Gen/BalancerConsts.lean"])
     broken = []
